@@ -114,6 +114,51 @@ def critical_section_yields(world):
         fapi.time = orig_time
 
 
+@contextmanager
+def fs_yields(world):
+    """Let Engine A switch processes around the directory look-ups and creations that toasty.pyramid makes when it builds a tile's
+    path: a look (`os.path.isdir` / `exists`) yields after it has been answered, a creation (`os.makedirs` / `mkdir`) yields before it
+    acts - so that two workers writing the first two tiles of one row directory can be interleaved between look and creation. The calls
+    themselves are the real ones on real directories."""
+    import toasty.pyramid as tp
+
+    real = tp.os
+
+    class _Path(object):
+        def __getattr__(self, n):
+            return getattr(real.path, n)
+
+        def isdir(self, *a, **k):
+            r = real.path.isdir(*a, **k)
+            world.checkpoint("fs-look")
+            return r
+
+        def exists(self, *a, **k):
+            r = real.path.exists(*a, **k)
+            world.checkpoint("fs-look")
+            return r
+
+    class _Os(object):
+        path = _Path()
+
+        def __getattr__(self, n):
+            return getattr(real, n)
+
+        def makedirs(self, *a, **k):
+            world.checkpoint("fs-create")
+            return real.makedirs(*a, **k)
+
+        def mkdir(self, *a, **k):
+            world.checkpoint("fs-create")
+            return real.mkdir(*a, **k)
+
+    tp.os = _Os()
+    try:
+        yield
+    finally:
+        tp.os = real
+
+
 def run_sim(fn, sched, world=None):
     """Run fn() as the caller process of a simulated world. Returns (world, result)."""
     w = world or SimWorld(sched)
